@@ -162,6 +162,11 @@ func (g *refGen) authenSess(scope string, flags uint8) SessScript {
 		s := SessASCII(g.nextSid(), flags, long, pw, false, -1)
 		s.Tag = "ascii-long-user"
 		return s
+	case c == 17 && r.Chance(50): // nothing typed at the password prompt, but something in the data field
+		s := SessASCII(g.nextSid(), flags, user, "", true, -1)
+		s.Pkts[len(s.Pkts)-1].Body = contBody(0, "", PickOf(r, "x", "\x00", pw))
+		s.Tag = "ascii-empty-password-with-data"
+		return s
 	case c == 19: // a very long password with octets above 0x7f (whatever the server says about it must still fit a reply)
 		s := SessASCII(g.nextSid(), flags, user, "\xc3\xa4"+r.Alnum(PickOf(r, 2000, 65400, 65420, 65500, 65525)), r.Bool(), -1)
 		s.Tag = "ascii-long-password"
@@ -229,6 +234,7 @@ func genRef(r *Rand, p *Plan, tier string, focus string) {
 		o.Keychain = true
 	case "C10", "C18":
 		o.DupUsers = focus == "C10" && r.Chance(30)
+		o.EmptyPw = focus == "C10" && r.Chance(40)
 		o.Keychain = true
 		o.OddAuth = r.Chance(15)
 		o.OddScopes = focus == "C18" && r.Chance(50)
